@@ -6,18 +6,19 @@ META = {
     "disabled": False,
     "level": "model_checking",
     "level_text": "DbcLayout.tla is the arithmetic oracle of the WDBC layout (RecordSize, FieldCount as Schema::validate counts it, per-field offsets, "
-                  "file = 20 + n*rs + string block), a model of string interning (first occurrence, offset 0 = empty, each string once), a writer/reader "
-                  "machine whose access paths compute record positions differently (running cursor vs index*record_size), and the key lookup structures. "
-                  "TLC checks on all schemas of <= 2 fields over 9 types x {scalar, array 1, array 3} with duplicate/empty strings and duplicate keys that "
-                  "the size arithmetic holds, interning is injective and duplicate-free, references resolve, the four paths agree, lookups are sound, and "
-                  "that the code's named deviations (field_count = fields.len(), strings inside arrays not interned, Int32 keys ignored) are exactly what "
-                  "breaks re-parsing / lookups. TLC then enumerates table shapes and emits record size, field count and field offsets with each; the "
-                  "harness encodes the table byte by byte from those numbers, drives parse (eager, cached strings, lazy by index and iterator, mmap, "
-                  "parallel), key lookups (hash, sorted + binary search), DbcWriter::write_records and re-parse; TLC validates every event.",
-    "level_note": "Values and strings are compared as tokens of a canonical rendering (floats by bit pattern, strings by text). quick: all 1- and 2-field "
-                  "schemas, a seed-rotated 1/41 of the 3-field schemas, 8- and 24-field schemas with key first/middle/last/absent and both key types, "
-                  "n in {0,1,2,100,10^4}; thorough: all 19 683 3-field schemas and more long ones. Array schemas with more than one element are masked "
-                  "for the re-parse conjunct by known finding F-C17-a.",
+                  "file = 20 + n*rs + string block), a model of string interning and of string references at every kind of offset (Locate), the iterator routes "
+                  "(RouteIdx), column-name classes and key-column order classes, a writer/reader machine whose access paths compute record positions differently, "
+                  "and the key lookup structures; the pre-fix behaviours of the code (field_count = fields.len(), strings inside arrays not interned, Int32 keys "
+                  "ignored) are kept as named deviations. TLC checks on all schemas of <= 2 fields over 9 types x {scalar, array 1, array 3} that the size arithmetic "
+                  "holds, interning is injective and duplicate-free, references resolve, paths agree, lookups are sound, plus constant-level laws (routes, stride, "
+                  "Locate, names, key orders). TLC then enumerates table shapes and emits record size, field count, field offsets, routes, reference kinds, column "
+                  "names, key columns and absent-key probes with each; the harness encodes the table byte by byte from those numbers and drives parse (eager, cached "
+                  "strings, lazy by index / iterator incl. nth, skip, step_by, last, mmap, parallel), key lookups (hash, sorted + binary search), "
+                  "DbcWriter::write_records and re-parse (also with cached strings); TLC validates every event, records per index.",
+    "level_note": "Values and strings are compared as tokens of a canonical rendering (floats by bit pattern, strings by the text a reference denotes). quick: all 1- and "
+                  "2-field schemas, a seed-rotated 1/41 of the 3-field schemas, 240 seed-rotated 4/5/6/12-field schemas, 8- and 24-field schemas with key "
+                  "first/middle/last/absent and both key types, a key-order slice (5 order classes x n in {4,5,9,100}), n in {0..3,100,10^4}; per-index / route events for "
+                  "tables of <= 128 records; thorough: all 19 683 3-field schemas and more long ones.",
     "technique": "TLA+ layout oracle and writer/reader machine (DbcLayout.tla) model-checked by TLC; TLC-emitted layouts drive a byte-level builder; "
                  "trace validation of wow-cdbc's parse / access paths / key lookups / writer by TLC",
     "design_ref": "DESIGN.md section 5, C13-C18 recipe and C17 paragraph",
@@ -28,7 +29,7 @@ META = {
 def sig(b):
     r = b.get("reset") or {}
     return {"ev": b["ev"], "why": str(b.get("why", "")).strip('"'), "keyty": r.get("keyty"), "arrGt1": r.get("arrGt1"),
-            "strInArr": r.get("strInArr"), "n0": r.get("n") == 0}
+            "strInArr": r.get("strInArr"), "n0": r.get("n") == 0, "namecls": r.get("namecls"), "keyorder": r.get("keyorder")}
 
 
 def run(ctx, cases_override=None):
@@ -66,8 +67,8 @@ def run(ctx, cases_override=None):
         "exhaustive": False,
         "schemas_le2_fields_exhaustive": True,
     }
-    assumptions = ["input tables are WDBC files with a well-formed string block (every reference is the start of a NUL-terminated UTF-8 string)",
-                   "the schema handed to parser and writer is the one the table was encoded with",
+    assumptions = ["input tables are WDBC files whose string references lie inside the string block (start of a string, inside one, a terminator, offset 0, last byte)",
+                   "the schema handed to parser and writer is the one the table was encoded with; column names are labels and may repeat",
                    "floats are compared by bit pattern; no NaN is generated"]
     return core.finish(ctx, "model_checking", cov, assumptions, res["bad"], sig_fn=sig, trace=trace)
 
